@@ -9,7 +9,7 @@ NEEDS_CLI = True
 NEEDS_SHIM = True
 NEEDS_PLAIN_CLI = True
 RULE = ("both in-process (catch_unwind per case; a dead harness process is bisected to the culprit) and the real binary (exit status 101 / signal / timeout = failure) on: "
-        "the malformed and boundary streams of every other property (mnemonics 0..40 words, paths/indices around 2^31/2^32/2^64, signature texts with scalars around 0 and n, "
+        "the malformed and boundary streams of every other property (keys of every length and shape, long / over-long / malformed vanity prefixes over an entropy stream, mnemonics 0..40 words, paths/indices around 2^31/2^32/2^64, signature texts with scalars around 0 and n, "
         "transaction JSON with malformed fields and chain ids up to 2^256-1, typed data with injected violations, domain types, hex input), byte-level mutations of valid "
         "JSON documents, JSON nesting 126..129, type strings with up to 64 array suffixes, worker counts -j 0..64 with refused/accepted selectors (hang detection by timeout), "
         "vanity prefixes <= 3 digits, generation lengths 0..40; non-trivial = distinct input that is not a well-formed accepted one; every response must be ok/err and equal the model's")
@@ -45,10 +45,11 @@ def gen(rng, tier):
     for name, keep in [("c01", ("count:", "malformed", "final-word")), ("c14", ("boundary", "malformed", "mutated", "for_index", "maybe-out-of-range")),
                        ("c15", ("boundary-scalars", "v-sweep", "length:", "mutated", "malformed", "utf8-straddle")), ("c13", ("malformed", "structure", "fuzz-number", "missing-field")),
                        ("c09", ("int-boundary", "bytesN", "wrong-kind", "structural", "huge-declared-size", "undefined-unreached", "fixed-array", "repeated", "domain-violation", "recursive-type")), ("c20", ("repeated", "foreign", "wrong-type", "no-domain-type")),
-                       ("c11", ("sig.v", "chain:2^25", "bit-boundary")), ("c19", ("malformed", "mutated")), ("c12", ("fail", "L:unsupported", "bad-length", "short-read", "vanity-fail"))]:
+                       ("c11", ("sig.v", "chain:2^25", "bit-boundary")), ("c19", ("malformed", "mutated")), ("c12", ("fail", "L:unsupported", "bad-length", "short-read", "vanity-fail")),
+                       ("c18", ("long-prefix-no-match", "bad-prefix", "empty-prefix")), ("c04", ("boundary", "length:", "text-of-a-key", "pubkey-shape")), ("c05", ("boundary", "text-like"))]:
         mod = importlib.import_module("vlib.props." + name)
         for c in mod.gen(rng, "quick"):
-            if any(t.startswith(k) for t in c.tags for k in keep) and rng.random() < frac:
+            if any(t.startswith(k) for t in c.tags for k in keep) and (rng.random() < frac or name == "c18"):
                 if c.line.startswith("sig.v"):
                     continue  # library-only API outside the CLI surface; its panic is characterised in C11.v_exact
                 cases.append(Case(c.line, tags=("from:" + name,) + tuple(t for t in c.tags if ":" not in t)[:1], runner=c.runner, meta=dict(c.meta), nontrivial=True))
@@ -109,6 +110,12 @@ def gen(rng, tier):
     for jn in range(0, 65):
         sel = ["idx:" + hx("4294967296"), "idx:" + hx("2147483648"), "path:" + hx("m/2147483648'"), "both:%s:%s" % (hx("1"), hx("m/1"))][jn % 4]
         cases.append(Case("cli.new_vanity %s %s - %s %s" % (hx("12"), hx("0x1"), sel, stream(rng, 2, 16)), tags=("workers-refused",), runner="cli", meta={"threads": jn, "timeout": 60}))
+    # prefixes at and beyond the length of an address (39..43 digits, odd and even) with worker threads over a short entropy
+    # stream: nothing matches, the stream runs dry, the command fails — it neither panics in a worker nor waits for ever
+    for d in (39, 40, 41, 42, 43, 45, 64, 65):
+        for jn in (0, 1, 2, 16):
+            pre = "0x" + "".join(rng.choice("0123456789abcdefABCDEF") for _ in range(d))
+            cases.append(Case("cli.new_vanity %s %s - default %s" % (hx("12"), hx(pre), stream(rng, 6, 16)), tags=("long-prefix-workers", "digits:%d" % d), runner="cli", meta={"threads": jn, "timeout": 60}))
     for L in range(0, 41):
         cases.append(Case("cli.new %s %s" % (hx(str(L)), hx(bytes(rng.getrandbits(8) for _ in range(40)))), tags=("new-length",), runner="cli", meta={}))
     for p in ["0xA", "0xAb", "0xABC", "0xg", "0x", "1", "0xFFF", "0x0G"]:
